@@ -884,6 +884,7 @@ def blocks(tier):
     out.append({"space": "clip", "tier": tier})
     out += [{"space": "score", "tier": tier, "cls": cname} for cname in SCORE_CLASSES]
     out.append({"space": "defaults", "tier": tier})
+    out.append({"space": "shared_uuid", "tier": tier})
     # environment axis: the small spaces once more in a child interpreter started with -O (assert statements compiled away)
     out += [{"space": "optimized", "tier": tier, "of": sp} for sp in ("project", "clip", "score", "match")]
     return out
@@ -940,6 +941,9 @@ def run_block(block, rec):
         from mc import child
         for o in child.run_in_child("c04", ENV_O, list(optimized_cases(tier, block["of"]))):
             rec.add(o)
+    elif sp == "shared_uuid":
+        for v in SHARED_UUID_VARIANTS:
+            rec.add(run_case({"space": sp, "variant": v}))
     elif sp == "defaults":
         for cname, fname in default_sites():
             rec.add(run_case({"space": sp, "cls": cname, "field": fname}))
@@ -951,6 +955,50 @@ def run_block(block, rec):
         vals = c["values"] + (["none"] if OPTIONAL_SCORE[block["cls"]] else [])
         for vn in vals:
             rec.add(run_case({"space": sp, "cls": block["cls"], "value": vn}))
+
+
+def run_shared_uuid(case):
+    """An annotation and a prediction that carry the SAME uuid (identifiers are only unique per kind of object): 'every annotated
+    and every predicted sound event exactly once' is judged per side - targets against the annotated, sources against the predicted."""
+    out = Out(case)
+    rec = recording(duration=10.0)
+    clip = data.Clip(uuid=_U("su:clip"), recording=rec, start_time=0.0, end_time=1.0)
+
+    def se(name):
+        return data.SoundEvent(uuid=_U("su:se:" + name), recording=rec, geometry=None)
+    X, Y = _U("su:X"), _U("su:Y")
+    a = data.SoundEventAnnotation(uuid=X, sound_event=se("a"), created_on=DT)
+    p = data.SoundEventPrediction(uuid=X, sound_event=se("p"), score=0.5)          # same uuid as the annotation
+    a2 = data.SoundEventAnnotation(uuid=Y, sound_event=se("a2"), created_on=DT)    # foreign annotation
+    p2 = data.SoundEventPrediction(uuid=Y, sound_event=se("p2"), score=0.5)        # foreign prediction
+    fa = data.SoundEventAnnotation(uuid=X, sound_event=se("fa"), created_on=DT)
+    ca = data.ClipAnnotation(uuid=_U("su:CA"), clip=clip, sound_events=[a])
+    cp = data.ClipPrediction(uuid=_U("su:CP"), clip=clip, sound_events=[p])
+    variants = {
+        "paired": ([data.Match(uuid=_U("su:m0"), source=p, target=a, affinity=0.5)], []),
+        "both_unmatched": ([data.Match(uuid=_U("su:m0"), target=a, affinity=0.0), data.Match(uuid=_U("su:m1"), source=p, affinity=0.0)], []),
+        "only_target": ([data.Match(uuid=_U("su:m0"), target=a, affinity=0.0)], ["missing"]),
+        "only_source": ([data.Match(uuid=_U("su:m0"), source=p, affinity=0.0)], ["missing"]),
+        "foreign_pair": ([data.Match(uuid=_U("su:m0"), target=a2, affinity=0.0), data.Match(uuid=_U("su:m1"), source=p2, affinity=0.0)], ["foreign"]),
+        "target_twice": ([data.Match(uuid=_U("su:m0"), source=p, target=a, affinity=0.5), data.Match(uuid=_U("su:m1"), target=a, affinity=0.0)], ["duplicate"]),
+    }
+    matches, reasons = variants[case["variant"]]
+    P = Paths(out, "clip_evaluation", reasons, {"shared_uuid": True})
+    obs, obj = observe(lambda: data.ClipEvaluation(uuid=_U("su:ce"), annotations=ca, predictions=cp, matches=matches))
+    P.add("ctor", obs)
+    d = {"uuid": _U("su:ce"), "annotations": ca.model_dump(), "predictions": cp.model_dump(), "matches": [m.model_dump() for m in matches]}
+    obs, obj = observe(lambda: data.ClipEvaluation.model_validate(d))
+    P.add("dict", obs)
+    text = json.dumps({"uuid": str(_U("su:ce")), "annotations": json.loads(ca.model_dump_json()), "predictions": json.loads(cp.model_dump_json()),
+                       "matches": [json.loads(m.model_dump_json()) for m in matches]})
+    obs, obj = observe(lambda: data.ClipEvaluation.model_validate_json(text))
+    P.add("json", obs)
+    P.finish()
+    out.nontrivial = True
+    return out
+
+
+SHARED_UUID_VARIANTS = ["paired", "both_unmatched", "only_target", "only_source", "foreign_pair", "target_twice"]
 
 
 def default_sites():
@@ -1005,7 +1053,7 @@ def run_defaults(case):
 
 
 RUNNERS = {"clip_evaluation": run_clip_evaluation, "match": run_match, "project": run_project, "clip": run_clip,
-           "score": run_score, "defaults": run_defaults}
+           "score": run_score, "defaults": run_defaults, "shared_uuid": run_shared_uuid}
 
 
 def run_case(case):
